@@ -483,6 +483,127 @@ theorem readback_determines_T {H Cn : ℝ → ℝ} {ε a b c x : ℝ} (hc0 : 0 <
   have := abs_sub (H T₂ - x) (H T₁ - x)
   linarith
 
+/-! ### The balance with the material made explicit
+
+`mix_energy` says: the temperature the receiver ends with reproduces `Q + Σ heat + Σ H_in` under the
+property function `Hf` the solver hypothesis is about.  What `Hf` is the enthalpy *of* is left open
+there.  Here the inlets carry amounts of material (any additive commutative monoid `M`: per-phase,
+per-chemical flows), an inlet's enthalpy is the enthalpy `Hm` of its material in its own state, and
+the receiver holds the sum of the inlets' material (the material side, C01).  With `Hm` additive in
+the material the balance gains content that does not sit in the hypotheses: mixing streams of one
+phase and one temperature without heat leaves that temperature (`mix_isothermal`), and so does
+separating out a share that has the stream's phase and temperature (`separate_isothermal`) —
+the temperature is *determined* by the balance, through `H_strictMono`. -/
+
+section Material
+variable {M : Type} [AddCommMonoid M]
+
+/-- enthalpy is additive in the amount of material (what the ideal mixture models of thermosteam compute) -/
+def Additive {β : Type} [AddCommMonoid β] (Hm : M → PhaseState → β → β) : Prop :=
+  (∀ ph T, Hm 0 ph T = 0) ∧ ∀ a b ph T, Hm (a + b) ph T = Hm a ph T + Hm b ph T
+
+theorem additive_sum {Hm : M → PhaseState → ℝ → ℝ} (hadd : Additive Hm) (ms : List M) (ph : PhaseState) (T : ℝ) :
+    Hm ms.sum ph T = (ms.map (fun m => Hm m ph T)).sum := by
+  induction ms with
+  | nil => simpa using hadd.1 ph T
+  | cons m t ih => simp [hadd.2, ih]
+
+/-- **mix_energy_material.**  `mix_energy` about material: the receiver holds `Σ mat f`, every inlet's
+enthalpy is the enthalpy of its own material in its own state; then the enthalpy of the receiver's
+material in its final state is `Q + Σ heat + Σ_f Hm (mat f) (state of f)` up to the solver residual.
+(`hcopy`: for a lone inlet without heat the copy may give a `MultiStream` receiver more phase
+labels than the inlet has; relabelling does not change the enthalpy.) -/
+theorem mix_energy_material {Hm : M → PhaseState → ℝ → ℝ} {ε : ℝ} {solve : Solver ℝ} (hε : 0 ≤ ε)
+    (mat : Feed ℝ → M) (recv : St ℝ) (rp : List Phase) (ins : List (Inlet ℝ)) (Q : ℝ) (cp : Bool)
+    (hH : ∀ f ∈ feeds ins, f.H = Hm (mat f) f.ph f.T)
+    (hs : SolverSound (Hm ((feeds ins).map mat).sum) ε solve)
+    (hN : feeds ins ≠ [])
+    (hcopy : ∀ f, feeds ins = [f] → Hm (mat f) (copyLike recv f).ph f.T = Hm (mat f) f.ph f.T)
+    (hok : (mixFrom solve recv rp ins Q cp).out = .ok) :
+    |Hm ((feeds ins).map mat).sum (mixFrom solve recv rp ins Q cp).st.ph (mixFrom solve recv rp ins Q cp).st.T
+        - (Q + (heats ins).sum + ((feeds ins).map (fun f => Hm (mat f) f.ph f.T)).sum)| ≤ ε := by
+  have hmap : (feeds ins).map (fun f => Hm (mat f) f.ph f.T) = (feeds ins).map (·.H) :=
+    List.map_congr_left (fun f hf => (hH f hf).symm)
+  rw [hmap]
+  refine mix_energy hε hs recv rp ins Q cp hN ?_ hok
+  intro f hf
+  have hmem : f ∈ feeds ins := by rw [hf]; simp
+  rw [hf]
+  simp only [List.map_cons, List.map_nil, List.sum_cons, List.sum_nil, add_zero]
+  rw [hcopy f hf, hH f hmem]
+
+/-- **mix_isothermal.**  Two or more non-empty inlets, all single-phase streams of one phase `p` at one
+temperature `T₀`, no net heat: when the call returns in phase `p` with a temperature inside `[a, b]`
+(where `dH/dT = Cn ≥ c > 0` for the mixed material), that temperature is `T₀` up to `ε / c`.  Uses
+additivity of `Hm` (the enthalpy of the mixed material at `T₀` *is* the sum of the inlet enthalpies)
+and the mean-value theorem. -/
+theorem mix_isothermal {Hm : M → PhaseState → ℝ → ℝ} (hadd : Additive Hm) {Cn : ℝ → ℝ} {ε a b c T₀ : ℝ}
+    {p : Phase} {solve : Solver ℝ} (hε : 0 ≤ ε)
+    (mat : Feed ℝ → M) (recv : St ℝ) (rp : List Phase) (ins : List (Inlet ℝ)) (Q : ℝ) (cp : Bool)
+    (hQ : Q + (heats ins).sum = 0)
+    (hfeeds : ∀ f ∈ feeds ins, f.T = T₀ ∧ f.ph = .single p ∧ f.H = Hm (mat f) (.single p) T₀)
+    (hN : 2 ≤ (feeds ins).length)
+    (hs : SolverSound (Hm ((feeds ins).map mat).sum) ε solve)
+    (hc0 : 0 < c)
+    (hd : ∀ T ∈ Set.Icc a b, HasDerivAt (Hm ((feeds ins).map mat).sum (.single p)) (Cn T) T)
+    (hc : ∀ T ∈ Set.Icc a b, c ≤ Cn T) (hT₀ : T₀ ∈ Set.Icc a b)
+    (hok : (mixFrom solve recv rp ins Q cp).out = .ok)
+    (hph : (mixFrom solve recv rp ins Q cp).st.ph = .single p)
+    (hT' : (mixFrom solve recv rp ins Q cp).st.T ∈ Set.Icc a b) :
+    |(mixFrom solve recv rp ins Q cp).st.T - T₀| ≤ ε / c := by
+  have hne : feeds ins ≠ [] := by
+    intro h; rw [h] at hN; simp at hN
+  have hH : ∀ f ∈ feeds ins, f.H = Hm (mat f) f.ph f.T := by
+    intro f hf
+    obtain ⟨h1, h2, h3⟩ := hfeeds f hf
+    rw [h1, h2, h3]
+  have hcopy : ∀ f, feeds ins = [f] → Hm (mat f) (copyLike recv f).ph f.T = Hm (mat f) f.ph f.T := by
+    intro f hf; rw [hf] at hN; simp at hN
+  have h := mix_energy_material hε mat recv rp ins Q cp hH hs hne hcopy hok
+  have hsum : ((feeds ins).map (fun f => Hm (mat f) f.ph f.T)).sum
+      = Hm ((feeds ins).map mat).sum (.single p) T₀ := by
+    rw [additive_sum hadd, List.map_map]
+    congr 1
+    apply List.map_congr_left
+    intro f hf
+    obtain ⟨h1, h2, _⟩ := hfeeds f hf
+    simp [h1, h2]
+  rw [hsum, hQ, zero_add, hph] at h
+  exact abs_sub_le_div_of_le_hasDerivAt hc0 hd hc hT₀ hT' h
+
+/-- **separate_isothermal.**  A stream in phase `p` at `T₀` holding `m_rest + m_other`, from which a
+share `m_other` in the same phase at the same temperature is separated out: when the call returns in
+phase `p` inside `[a, b]`, the temperature is `T₀` up to `ε / c`.  (A share in *another* phase at the
+same temperature does not satisfy the hypothesis `Hother = Hm m_other (.single p) T₀`, and the
+temperature then moves: the latent heat leaves with the share.) -/
+theorem separate_isothermal {Hm : M → PhaseState → ℝ → ℝ} (hadd : Additive Hm) {Cn : ℝ → ℝ} {ε a b c : ℝ}
+    {p : Phase} {solve : Solver ℝ} (mrest mother : M) (self : St ℝ)
+    (hs : SolverSound (Hm mrest) ε solve) (hc0 : 0 < c)
+    (hd : ∀ T ∈ Set.Icc a b, HasDerivAt (Hm mrest (.single p)) (Cn T) T)
+    (hc : ∀ T ∈ Set.Icc a b, c ≤ Cn T) (hT₀ : self.T ∈ Set.Icc a b)
+    (hok : (separateOut solve self (Hm (mrest + mother) (.single p) self.T) (Hm mother (.single p) self.T)
+              false false false false).out = .ok)
+    (hph : (separateOut solve self (Hm (mrest + mother) (.single p) self.T) (Hm mother (.single p) self.T)
+              false false false false).st.ph = .single p)
+    (hT' : (separateOut solve self (Hm (mrest + mother) (.single p) self.T) (Hm mother (.single p) self.T)
+              false false false false).st.T ∈ Set.Icc a b) :
+    |(separateOut solve self (Hm (mrest + mother) (.single p) self.T) (Hm mother (.single p) self.T)
+              false false false false).st.T - self.T| ≤ ε / c := by
+  have h := separate_energy hs self _ _ hok
+  have e : Hm (mrest + mother) (.single p) self.T - Hm mother (.single p) self.T = Hm mrest (.single p) self.T := by
+    rw [hadd.2]; ring
+  rw [e, hph] at h
+  exact abs_sub_le_div_of_le_hasDerivAt hc0 hd hc hT₀ hT' h
+
+/-- the hypotheses are satisfiable: amounts in `ℝ`, `Hm m ph T = m · 3 T` is additive and has `dH/dT = 3 m` -/
+example : Additive (fun (m : ℝ) (_ : PhaseState) (T : ℝ) => m * (3 * T)) :=
+  ⟨by simp, by intro a b ph T; ring⟩
+example : ∀ T ∈ Set.Icc (250 : ℝ) 500, HasDerivAt (fun T : ℝ => 2 * (3 * T)) ((fun _ => (2 * 3 : ℝ)) T) T := by
+  intro T _
+  simpa using ((hasDerivAt_id T).const_mul (3 : ℝ)).const_mul (2 : ℝ)
+
+end Material
+
 /-! The iteration maps: their fixed points are exactly the solutions, so *if* the Aitken iteration
 converges (monitored, not proved) it converges to the temperature the read-back theorems speak of. -/
 
